@@ -341,6 +341,8 @@ def _clip(x, limit=1000):
             return [_clip(v, limit) for v in x[: limit // 2]] + [f"... {len(x) - limit} entries clipped ..."] + \
                    [_clip(v, limit) for v in x[-(limit // 2):]]
         return [_clip(v, limit) for v in x]
+    if isinstance(x, str) and len(x) > 20 * limit:
+        return x[: 10 * limit] + f"... {len(x) - 20 * limit} characters clipped ..." + x[-10 * limit:]
     return x
 
 
